@@ -5,3 +5,6 @@ import Norad.Props.C11
 #print axioms C11.parseContours_isSome_iff
 #print axioms C11.accepted_points_unchanged
 #print axioms C11.all_offcurve_closed_legal
+#print axioms C11.parseOutline_isSome_iff
+#print axioms C11.v2_contours_unchanged
+#print axioms C11.v1_single_named_move_becomes_anchor
